@@ -1,8 +1,10 @@
 (* Separation proofs for the instance model (C02, C08).
 
-   `sep b A h0 m Q` is a Hoare-style judgement over the state-and-exception
+   `sep b A W h0 m Q` is a Hoare-style judgement over the state-and-exception
    monad of Heap.v.  b is a watermark (the length of the heap when the call
-   under consideration began), h0 that heap, and A : loc -> Prop the set of
+   under consideration began), h0 that heap, W : loc -> Prop the old cells the
+   computation may write (none for copy-on-write calls; the receiver for
+   in-place operations, see Section Confinement), and A : loc -> Prop the set of
    "allowed old objects" (what the caller handed to the call, values held
    by do_not_copy attributes, ...).  A value is `okv` when it is a scalar, a
    reference to a cell >= b, or a reference to an allowed old object.  The
